@@ -306,6 +306,15 @@ func init() {
 		if x.concrete() && y.concrete() {
 			return Float{v: math.Copysign(x.v, y.v)}
 		}
+		if x.concrete() && y.t != nil {
+			// sign of a real-valued y (negative zero and NaN do not exist in the real model)
+			a := new(big.Rat).SetFloat64(math.Abs(x.v))
+			if a != nil {
+				na := new(big.Rat).Neg(a)
+				zero := r.tt.RConst(new(big.Rat))
+				return Float{t: r.tt.Ite(r.tt.RBin(OpRLt, y.t, zero), r.tt.RConst(na), r.tt.RConst(a))}
+			}
+		}
 		return Float{unk: true}
 	}, "math.Copysign")
 	reg(func(r *Run, fr *frame, args []Value) Value {
